@@ -36,7 +36,19 @@ pub fn run(args: &Args) -> Report {
     // pass 1: minimal alphabet, as deep as the budget allows (fixed point if possible)
     let total = args.tier.pick(50, 1500);
     let narrow = l1::L1Cfg { narrow: true, full: false, deadline: Instant::now() + Duration::from_secs(total / 2), ..l1::L1Cfg { ..cfg_clone(&cfg) } };
-    let res_n = l1::explore(&w, r, &narrow, &|_e| vec![]);
+    // pass 0: persistence-focused alphabet (deep chains of crash / write error / restart)
+    let pers_cfg = l1::L1Cfg { deadline: Instant::now() + Duration::from_secs(total / 4), ..cfg_clone(&cfg) };
+    let pa = l1::persistence_alphabet(&w, r, &pers_cfg);
+    let pa_len = pa.len();
+    let res_p = l1::explore_alphabet(&w, r, &pers_cfg, pa, &|_e| vec![]);
+    for (k, wh, rp) in res_p.violations.iter() {
+        if k == "equivocation" || k == "store" {
+            rep.violations.push(Violation { key: k.clone(), what: wh.clone(), replay: rp.clone() });
+        }
+    }
+    let narrow = l1::L1Cfg { deadline: Instant::now() + Duration::from_secs(total * 3 / 8), ..narrow };
+    let res_n = if rep.violations.is_empty() { l1::explore(&w, r, &narrow, &|_e| vec![]) } else { l1::L1Result::default() };
+    let cfg = l1::L1Cfg { deadline: Instant::now() + Duration::from_secs(total * 3 / 8), ..cfg };
     // pass 2: wide alphabet, breadth-first to the depth the remaining budget allows
     let res = if res_n.violations.is_empty() { l1::explore(&w, r, &cfg, &|_e| vec![]) } else { l1::L1Result::default() };
     for (k, wh, rp) in res_n.violations.iter().chain(res.violations.iter()) {
@@ -51,6 +63,8 @@ pub fn run(args: &Args) -> Report {
     let res = if res.states == 0 { res_n } else { res };
     rep.coverage = l1::coverage_json(&res, &cfg, "every reachable (local state, signed-log summary) pair of one real replica of K4=[2,2,1,1] (weight-1 validator) under the finite adversarial alphabet, with a crash at every durable write (applied / lost) of every accepted step and plain restarts; oracle over everything signed by all incarnations along the path");
     rep.coverage["minimal_alphabet_pass"] = narrow_cov;
+    rep.coverage["persistence_pass"] = l1::coverage_json(&res_p, &pers_cfg, "persistence-focused alphabet (proposals and new-views from the leader, the timer), every crash point x {applied, lost, write error}, restarts");
+    rep.coverage["persistence_pass"]["alphabet_size"] = json!(pa_len);
     rep.assumptions = vec![
         "set_state is atomic (no torn writes inside one call); acknowledged writes are durable".into(),
         "views above the alphabet's bound and payload alphabets larger than the tier's are outside the scope".into(),
